@@ -7,7 +7,7 @@ class Prop:
     id = "C09"
     level = "fault_enumeration"
     engine = "VT"
-    quick_runs = 6000
+    quick_runs = 15000
     thorough_runs = 300000
     chunk = 40
     rule = ("per seeded pipeline (depth 1-3 over hot, cold and sync sources; every catalogue row with a callback is the root of some "
